@@ -309,14 +309,39 @@ def _only_consumer_is_reindex(ctx, f, actual):
     return ok
 
 
+def subset_test(term, outcome, small, big):
+    """Does (term, outcome) say  set(small) <= set(big)  ?"""
+    def setof(x):
+        return ("call", "builtins.set", (("param", x),), ())
+    if not outcome:
+        return False
+    if term[0] == "cmp" and term[1] == "<=" and term[2] == setof(small) \
+            and term[3] == setof(big):
+        return True
+    if term[0] == "cmp" and term[1] == ">=" and term[3] == setof(small) \
+            and term[2] == setof(big):
+        return True
+    if term[0] == "mcall" and term[2] == "issubset" and \
+            term[1] == setof(small) and term[3] in (
+                (setof(big),), (("param", big),)):
+        return True
+    return False
+
+
 def _single_writer(ctx, callee):
+    """The shared list is appended to only under 'all identifier columns are
+    in this task's column chunk' - true for exactly one task."""
     cfg = CFG(callee.node)
+    T = Terms(DefUse(ctx.prog, callee))
+    p_reader, p_col, p_spec, p_list = callee.params
     apps = [n for n in ast.walk(callee.node) if isinstance(n, ast.Call)
-            and ast.unparse(n.func) == "df_spectra_list.append"]
+            and isinstance(n.func, ast.Attribute)
+            and n.func.attr in MUTATORS and isinstance(
+                n.func.value, ast.Name) and n.func.value.id == p_list]
     if len(apps) != 1:
         return False
-    gs = [ast.unparse(g[0]) for g in cfg.guards(apps[0]) if g[1]]
-    return any(g.startswith("set(spectra) <= set(column)") for g in gs)
+    return any(subset_test(t, o, p_spec, p_col)
+               for t, o in cond_terms(cfg, T, apps[0]))
 
 
 def _models_sorted(ctx):
